@@ -171,6 +171,68 @@ chk('C15', 'model_checking',
     'TLC validation (Conform.tla) of recorded proposals of the real mutators',
     'Conform.tla, LexerOps.tla, SExpr.tla', 'DESIGN.md section 5, C15')
 
+chk('C04', 'model_checking',
+    'Main.tla states the phases, usage errors and exit status (TLC: status 0 '
+    'iff the run reached the report phase) and generates the usage matrix; '
+    'GenShapes.tla generates every special identifier of the sources x arity '
+    'x child shape. Every shape (top level and inside an assert, plus '
+    'unbalanced/odd texts) is replayed through everything ddSMT runs '
+    'unguarded in its main process (parser, theory detection, information '
+    'collection, ddmin task generation for every mutator and granularity, '
+    'the hierarchical producer, all writers); every situation of the matrix '
+    'is replayed through bin/ddsmt and python -m ddsmt; sampled shapes run '
+    'end to end against keyword-adversarial commands.',
+    'Special identifiers are collected from quoted strings of the sources; '
+    'arity <= 2 (quick) / 3 (thorough), one level of nesting.',
+    'TLA+ generators (usage matrix, shapes) enumerated by TLC and replayed '
+    'into the main-process code paths and the real CLI',
+    'Main.tla, GenShapes.tla', 'DESIGN.md section 5, C04')
+
+chk('C06', 'fault_enumeration',
+    'OutFile.tla is a POSIX file-system model with the state invariant '
+    'OutComplete; TLC shows a rename-based writer satisfies it and truncate-'
+    'then-fill violates it. The system calls of real runs (strace -ff) on the '
+    'output path are replayed by TLC through the model\'s system-call actions '
+    '(TraceOutFile.tla) so that every prefix is a SIGKILL/reader point; an '
+    'interrupt is injected at the n-th low-level write of the output renderer '
+    'for n across all rewrites of a run; SIGINT/SIGKILL are sent at seeded '
+    'times. Afterwards: complete accepted text in the file (the last one '
+    'after an interrupt), input unchanged, temporary directory gone, no '
+    'process left.',
+    'SIGINT is modelled by KeyboardInterrupt at a write call of the renderer; '
+    'fsync/power-loss ordering is not modelled; one input/command pair.',
+    'TLC-checked file-system model + TLC validation of strace system-call '
+    'traces + enumerated interrupt points',
+    'OutFile.tla, TraceOutFile.tla', 'DESIGN.md section 5, C06')
+
+chk('C09', 'model_checking',
+    'Checker.tla states the documented acceptance rule; TLC enumerates the '
+    'product of comparison options and outcomes (all 6 main options x exit x '
+    '4x4 stream kinds; the full cross-check side x 8 main-side situations) '
+    'with the expected verdict, and every case is replayed into the real '
+    'checker: options from a real argv, tmpfiles.init/copy_binaries, '
+    'do_golden_runs and check_exprs with real subprocesses of a command whose '
+    'behaviour is dictated per file; the argv seen by the command is checked.',
+    'One concrete text per stream kind; configurations that stop at the golden '
+    'run belong to C10.',
+    'TLA+ statement of the rule as exhaustive case generator replayed into the '
+    'real checker with real subprocesses',
+    'Checker.tla', 'DESIGN.md section 5, C09')
+
+chk('C14', 'model_checking',
+    'Options.tla gives the semantics of ordered mutator/group toggles, '
+    '--disable-all and theory detection; MC_Options model-checks its algebra '
+    'on an abstract registry (all sequences <= 3, all declaration profiles). '
+    'With the registry read from the running code, TLC (OptionsTrace.tla) '
+    'judges what the real code built for every single option, ordered pairs '
+    'and seeded longer sequences x declaration profiles: options parsed from a '
+    'real argv, auto_detect_theories, get_passes(), ddmin_passes().',
+    'argparse abbreviations are not exercised; a theory is declared through a '
+    'declaration whose result sort belongs to it.',
+    'TLC-checked option semantics + TLC judgement of recorded pass lists of '
+    'the real code',
+    'Options.tla, OptionsTrace.tla', 'DESIGN.md section 5, C14')
+
 NOT_YET = 'check not built yet (work in progress; see DESIGN.md section 10)'
 NOT_APPLICABLE = {}
 
@@ -195,6 +257,18 @@ ENGINES = [
      'TLA+ trace spec reusing Hier.tla action bodies'),
     ('TraceDdmin.tla', 'specs/TraceDdmin.tla',
      'TLA+ trace spec reusing Ddmin.tla action bodies'),
+    ('Main.tla', 'specs/Main.tla', 'TLA+ spec: phases and exit status'),
+    ('GenShapes.tla', 'specs/GenShapes.tla',
+     'TLA+ spec: generator of ill-formed s-expression shapes'),
+    ('OutFile.tla', 'specs/OutFile.tla', 'TLA+ spec: POSIX file model'),
+    ('TraceOutFile.tla', 'specs/TraceOutFile.tla',
+     'TLA+ trace spec over strace system calls'),
+    ('Checker.tla', 'specs/Checker.tla', 'TLA+ spec: acceptance rule'),
+    ('Options.tla', 'specs/Options.tla', 'TLA+ spec: mutator options'),
+    ('OptionsTrace.tla', 'specs/OptionsTrace.tla',
+     'TLA+ case validation for options'),
+    ('Rewrite.tla', 'specs/Rewrite.tla',
+     'TLA+ spec: proposal relation as transition system'),
     ('Conform.tla', 'specs/Conform.tla',
      'TLA+ trace/case validation of recorded implementation behaviour'),
 ]
